@@ -30,9 +30,12 @@ def gen_case(seed, i):
     files = []
     for f in range(rng.randint(1, 4)):
         n = rng.choice([1, 30, 700, 70000 if rng.random() < 0.2 else 300])
+        # every sixth family is SPARSE: some data, then a hole up to the end (or nothing but a hole)
+        sp = rng.random() < 0.17
         for k in range(rng.randint(2, 4)):
             p = "r/%s/f%dk%d" % (rng.choice(["a", "b", "a/c"]), f, k)
-            w.add_file(p, {"fam": f + 1, "len": n, "flips": []})
+            w.add_file(p, {"fam": f + 1, "len": 4096 if sp and f % 2 else (0 if sp else n), "tailhole": 200000 + f, "flips": []} if sp
+                       else {"fam": f + 1, "len": n, "flips": []})
             files.append(p)
     variant = rng.choice(["outside", "outside", "inside", "relative", "dev2", "linkdotdot"])
     # "linkdotdot": DIR is written `lk/../T2` where lk is a symbolic link to the directory store/deep - the
